@@ -500,7 +500,10 @@ class InstanceWriteProvider(BaseProvider):
                 for ns in multi_ns:
                     instance_name_copy.namespace = ns
                     instance_store = self.cimrepository.get_instance_store(ns)
-                    instance_store.delete(instance_name_copy)
+                    # The instance may be missing in the other namespaces,
+                    # e.g. if it was added with add_cimobjects().
+                    if instance_store.object_exists(instance_name_copy):
+                        instance_store.delete(instance_name_copy)
             else:
                 instance_store = \
                     self.cimrepository.get_instance_store(namespace)
